@@ -177,7 +177,7 @@ func (w *Wallet) IsUnlocked(ctx context.Context) (bool, error) { return w.Unlock
 func NewWallet(l *Log, name string, names []string, keys [][48]byte) *Wallet {
 	w := &Wallet{Id: uuid.UUID{0x10, byte(len(name))}, N: name, Unlocked: true, L: l}
 	for k := range names {
-		w.Accts = append(w.Accts, &Account{Id: uuid.UUID{0x20, byte(k)}, N: names[k], Key: keys[k], Unlocked: true, W: w, L: l})
+		w.Accts = append(w.Accts, &Account{Id: uuid.UUID{0x20, byte(k)}, N: names[k], Key: keys[k], Unlocked: true, W: w, L: l, FaultTag: names[k] + ":"})
 	}
 	return w
 }
@@ -206,7 +206,7 @@ func (f *Fetcher) FetchWallet(ctx context.Context, path string) (e2wtypes.Wallet
 }
 
 func (f *Fetcher) FetchAccount(ctx context.Context, path string) (e2wtypes.Wallet, e2wtypes.Account, error) {
-	if vsym.Fault("fetcher.FetchAccount") {
+	if vsym.Fault("fetcher.FetchAccount:" + path) {
 		return nil, nil, errors.New("injected: FetchAccount failed")
 	}
 	k := strings.Index(path, "/")
@@ -271,7 +271,7 @@ func (c *Checker) Check(ctx context.Context, credentials *checker.Credentials, a
 	if c.L != nil {
 		c.L.Checks = append(c.L.Checks, CheckCall{Client: client, Account: account, Op: operation})
 	}
-	if vsym.Fault("checker.Check") {
+	if vsym.Fault("checker.Check:" + account) {
 		return false
 	}
 	if c.Deny != nil && c.Deny(client, account, operation) {
@@ -304,7 +304,7 @@ func (u *Unlocker) UnlockWallet(ctx context.Context, wallet e2wtypes.Wallet) (bo
 
 func (u *Unlocker) UnlockAccount(ctx context.Context, wallet e2wtypes.Wallet, account e2wtypes.Account) (bool, error) {
 	u.L.add("unlocker.UnlockAccount:" + wallet.Name() + "/" + account.Name())
-	if vsym.Fault("unlocker.UnlockAccount") {
+	if vsym.Fault("unlocker.UnlockAccount:" + account.Name()) {
 		return false, errors.New("injected: UnlockAccount failed")
 	}
 	if !u.Knows {
